@@ -131,9 +131,14 @@ def main():
     raise_conds = {}
     for exc, cond in req.get("raises", {}).items():
         raise_conds[exc] = None if cond == "?" else Clause(cond).holds(env)
-    call_args = [args[n] for n in req["order"]]
+    # `*args` / `**kwargs` parameters of the contract are handed over as python does (not as one tuple / one dict)
+    va, kw = req.get("vararg"), req.get("kwarg")
+    call_args = [args[n] for n in req["order"] if n not in (va, kw)]
+    if va and va in args:
+        call_args += list(args[va])
+    call_kwargs = dict(args[kw]) if kw and isinstance(args.get(kw), dict) else {}
     try:
-        res = obj(*call_args)
+        res = obj(*call_args, **call_kwargs)
         if req.get("generator"):
             res = list(res)
             env["out"] = res
